@@ -43,6 +43,7 @@ def regenerate():
         "assumed_tensor_params": {"%s::%s" % (f.module, f.qual): sorted(set(f.assumed_tensor_params)) for f in fns if f.assumed_tensor_params},
         "allow_ids_used": sorted({a for t in table for a in t["allowed"]}),
         "allow_ids_unused": sorted({a["id"] for a in allow} - {a for t in table for a in t["allowed"]}),
+        "skipped": list(own_ir.LAST_SKIPPED),
     }
     json.dump(meta, open(os.path.join(gen, "own_table.json"), "w"), indent=1)
     return meta
@@ -63,6 +64,23 @@ def failing_sites(meta):
 
 
 # ------------------------------------------------------------------------------------------------ validation of trusted tables
+
+def scan_stage(ctx, meta):
+    """independent syntactic scan (harness/c13_scan.py) vs the translator's site table: no in-place construct of the package may be
+    missing from the IR without a stated reason"""
+    from . import c13_scan
+    found = c13_scan.scan(common.REPO)
+    unc, st = c13_scan.crosscheck(found, meta)
+    for u in unc[:8]:
+        ctx.violation({"kind": "in-place-construct-not-in-ir", "module": u["module"], "line": u["line"], "construct": u["cat"], "text": u["text"],
+                       "inside_a_function": u["in_function"],
+                       "what": "the independent scan finds an in-place construct at this line; the regenerated IR has no in-place site there and the "
+                               "translator gives no reason for skipping it: C13_library_functions_owned / C13_operator_methods_owned do not cover it",
+                       "correspondence": "harness/c13_scan.py vs coq/C13/gen/own_table.json"}, no_input=True)
+    reasons = collections.Counter(x["reason"].split("`")[0].strip() for x in meta.get("skipped", []))
+    st["skip_reasons"] = dict(reasons)
+    return st
+
 
 def op_table_stage(ctx, meta):
     import torch
@@ -212,6 +230,56 @@ def grid(ctx, only_functions=None, thorough=None):
     return cells
 
 
+# ---- call-sequence cells (harness/c13_seq.py): run by two worker processes concurrently with the other stages
+
+def seq_start(ctx, thorough, nparts=2):
+    import subprocess
+    import sys
+    gen = os.path.join(common.COQ, PROP, "gen")
+    os.makedirs(gen, exist_ok=True)
+    procs = []
+    for part in range(nparts):
+        out = os.path.join(gen, "seq_%d_%d.json" % (os.getpid(), part))
+        p = subprocess.Popen([sys.executable, "-m", "harness.c13_seq", str(ctx.seed), "1" if thorough else "0", str(part), str(nparts), out],
+                             cwd=common.VERIF, env=dict(os.environ, OMP_NUM_THREADS="1", MKL_NUM_THREADS="1"),
+                             stdout=subprocess.DEVNULL, stderr=subprocess.PIPE)
+        procs.append((p, out))
+    return {"procs": procs, "thorough": thorough, "t0": time.time()}
+
+
+def seq_collect(ctx, handle, timeout=1400):
+    """-> rows of harness/c13_seq.run_cells (in the deterministic grid order).  A worker that fails is re-run in this process."""
+    from . import c13_dyn, c13_seq
+    parts = []
+    nparts = len(handle["procs"])
+    for part, (p, out) in enumerate(handle["procs"]):
+        rows = None
+        try:
+            p.wait(timeout=max(5, timeout - (time.time() - handle["t0"])))
+            if p.returncode == 0:
+                rows = json.load(open(out))["rows"]
+        except Exception:
+            try:
+                p.kill()
+            except Exception:
+                pass
+        try:
+            os.remove(out)
+        except OSError:
+            pass
+        if rows is None:
+            ctx.say("sequence worker %d failed; running its cells in-process" % part)
+            rows, _ = c13_seq.run_cells(c13_seq.grid_cells(ctx.seed, handle["thorough"], c13_dyn.LAYOUTS)[part::nparts], ctx.seed)
+        parts.append(rows)
+    out = []
+    for i in range(max(len(x) for x in parts) if parts else 0):
+        for x in parts:
+            if i < len(x):
+                out.append(x[i])
+    handle["seconds"] = round(time.time() - handle["t0"], 1)
+    return out
+
+
 def site_ops(meta, module, qual, line):
     """in-place sites the translator knows at a source line: {(program kind, why)}"""
     out = set()
@@ -247,9 +315,13 @@ def hit_key(meta, case, lay, hit, loc):
     return key
 
 
-def dynamic_stage(ctx, meta, cells, types, localise_limit=200):
-    from . import c13_cases, c13_dyn
+def dynamic_stage(ctx, meta, cells, types, localise_limit=200, seq_rows=None, skip=None):
+    """cells: [(case, layout, kind)] run here; seq_rows: results of the call-sequence cells (run by the workers); skip: cells
+    (entry, variant, layout) already run and reported by an earlier, narrower stage"""
+    from . import c13_cases, c13_dyn, c13_seq
     prof = c13_dyn.Profiler(types)
+    skip = skip or set()
+    cells = [c for c in cells if (c[0][0], c[0][1], c[1]) not in skip]
     stat = collections.Counter()
     by_kind = collections.Counter()
     by_layout = collections.Counter()
@@ -271,6 +343,28 @@ def dynamic_stage(ctx, meta, cells, types, localise_limit=200):
             raised_samples.setdefault(case[0], r["error"])
         for h in r["hits"]:
             hits.append((case, lay, h))
+    seqstat = collections.Counter()
+    for row in seq_rows or []:
+        if (row["entry"], row["variant"], row["layout"]) in skip:
+            continue
+        hit = bool(row["hits"])
+        stat["ok" if (row["status"] == "ok" or hit) else row["status"]] += 1
+        by_kind["sequence"] += 1
+        by_layout["sequence/%s" % row["layout"]] += 1
+        degenerate += row["degenerate"]
+        sq = row.get("seq") or {}
+        seqstat["calls"] += len(sq.get("calls", ()))
+        seqstat["calls_raised"] += sq.get("errors", 0)
+        seqstat["tensors_recorded"] += sq.get("tensors", 0)
+        seqstat["operators_recorded"] += sq.get("operators", 0)
+        for k, v in (sq.get("where") or {}).items():
+            seqstat["tensors_" + k] += v
+        if row["status"] == "ok" and sq.get("errors", 0) < len(sq.get("calls", ())):
+            distinct.add((row["entry"], row["variant"], row["layout"]))
+        if hit:
+            case = c13_seq.find_case(row["entry"], row["variant"])
+            for h in row["hits"]:
+                hits.append((case, row["layout"], dict(h, calls=sq.get("calls"))))
     # localise and report
     reported = []
     loc_cache = {}
@@ -282,16 +376,19 @@ def dynamic_stage(ctx, meta, cells, types, localise_limit=200):
         key = hit_key(meta, case, lay, h, loc)
         replay = {"kind": "caller-tensor-mutated", "entry": case[0], "variant": case[1], "layout": lay, "seed": ctx.seed,
                   "argument": h["arg"], "effects": h["effects"],
+                  **({"call_sequence": h.get("calls"), "offending_call": h.get("call"), "offending_step": h.get("step")} if case[0].startswith("seq.") else {}),
                   "written_at": None if loc is None else {"file": loc[0], "function": loc[1], "line": loc[2], "source": loc[3]},
                   "expected": "every caller tensor keeps its _version, metadata and bytes; every pre-existing operator keeps its dense matrix",
                   "how_to_replay": "./check replay <this file>  (rebuilds the case from entry/variant/layout/seed and re-runs it)"}
         new = ctx.violation(replay, key=key)
-        reported.append({"entry": case[0], "variant": case[1], "layout": lay, "arg": h["arg"], "effects": h["effects"], "key": key,
-                         "known": not new})
+        reported.append({"entry": case[0], "variant": case[1], "layout": lay, "seed": ctx.seed, "arg": h["arg"], "effects": h["effects"], "key": key,
+                         "known": not new, **({"call_sequence": h.get("calls"), "offending_call": h.get("call")} if case[0].startswith("seq.") else {}),
+                         "written_at": replay["written_at"]})
     for tv in prof.type_violations[:5]:
         ctx.violation({"kind": "type-assumption-contradicted", "function": "%s::%s" % (tv[0], tv[1]), "parameter": tv[2], "observed_type": tv[3],
                        "correspondence": "tensor-typed parameters assumed by harness/own_ir.py (annotations / c13_types.json)"}, no_input=True)
     return {"stat": dict(stat), "by_kind": dict(by_kind), "by_layout": dict(by_layout), "hits": reported, "degenerate": degenerate, "distinct_ok": len(distinct),
+            "distinct": distinct, "sequence": dict(seqstat), "ran": {(c[0][0], c[0][1], c[1]) for c in cells} | {(r["entry"], r["variant"], r["layout"]) for r in seq_rows or []},
             "executed": prof.executed, "type_checks": prof.type_checks, "type_violations": len(prof.type_violations),
             "raised_samples": dict(list(raised_samples.items())[:6])}
 
@@ -367,6 +464,45 @@ def report_static(ctx, meta, dyn):
 
 # ------------------------------------------------------------------------------------------------ run
 
+def merge_dyn(a, b):
+    """results of a narrower stage a and of the widening stage b (disjoint cells)"""
+    out = dict(a)
+    for k in ("stat", "by_kind", "by_layout", "sequence"):
+        c = collections.Counter(a.get(k) or {})
+        c.update(b.get(k) or {})
+        out[k] = dict(c)
+    out["hits"] = a["hits"] + b["hits"]
+    out["degenerate"] = a["degenerate"] + b["degenerate"]
+    out["distinct"] = a["distinct"] | b["distinct"]
+    out["distinct_ok"] = len(out["distinct"])
+    out["ran"] = a["ran"] | b["ran"]
+    out["executed"] = set(a["executed"]) | set(b["executed"])
+    out["type_checks"] = a["type_checks"] + b["type_checks"]
+    out["type_violations"] = a["type_violations"] + b["type_violations"]
+    return out
+
+
+def search(ctx, meta, types, seqh, want=None):
+    """the dynamic search (grid cells in this process + call-sequence cells from the workers `seqh`) at the tier's width; in the quick
+    tier, when something is open (`want`: failing static sites without a known finding, or a broken proof: want=True) and the
+    quick width does not produce a concrete input for it, the search is widened to the thorough width (cells already run are skipped)"""
+    def satisfied(d):
+        new = [h for h in d["hits"] if not h["known"]]
+        if want is True:
+            return bool(new)
+        return all(any(h["key"].get("function") == s["function"] for h in new) for s in want)
+    cells = grid(ctx)
+    d = dynamic_stage(ctx, meta, cells, types, localise_limit=400 if want else 200, seq_rows=seq_collect(ctx, seqh))
+    if want and ctx.quick and not satisfied(d):
+        ctx.say("open obligation without a concrete input at quick width: widening the dynamic search to thorough width")
+        h2 = seq_start(ctx, True)
+        wide = grid(ctx, thorough=True)
+        d2 = dynamic_stage(ctx, meta, wide, types, localise_limit=400, seq_rows=seq_collect(ctx, h2), skip=d["ran"])
+        d = merge_dyn(d, d2)
+        cells = wide
+    return d, cells
+
+
 def run(ctx):
     import torch
     torch.set_num_threads(1)
@@ -377,10 +513,12 @@ def run(ctx):
         tr_err = None
     except own_ir.Untranslatable as ex:
         meta, tr_err = None, str(ex)
+    # the call-sequence cells run in two worker processes, concurrently with the stages below
+    seqh = seq_start(ctx, not ctx.quick)
     if meta is None:
         # fail closed: the IR cannot be regenerated -> every obligation is open; search the implementation
         ctx.say("translator rejected the source:", tr_err)
-        dyn = dynamic_stage(ctx, None, grid(ctx, thorough=True), types)
+        dyn, _ = search(ctx, None, types, seqh, want=True)
         if not [h for h in dyn["hits"] if not h["known"]]:
             ctx.violation({"kind": "translator-rejected-source", "error": tr_err,
                            "obligation": "coq/C13/gen/OwnIR.v could not be regenerated; C13_library_functions_owned is not re-proved"}, no_input=True)
@@ -393,26 +531,28 @@ def run(ctx):
     searched = {}
 
     def on_fail(info):
-        # a generated obligation (or a hand proof) no longer compiles: run the dynamic search at thorough width
-        d = dynamic_stage(ctx, meta, grid(ctx, thorough=True), types, localise_limit=400)
+        # a generated obligation (or a hand proof) no longer compiles: search the implementation for a concrete failing input
+        d, _ = search(ctx, meta, types, seqh, want=True)
         searched["dyn"] = d
         return any(not h["known"] for h in d["hits"])
     ok = common.proof_stage(ctx, on_fail)
     t_pf = time.time() - t0 - t_tr
     static_fail = failing_sites(meta)
     if not ok:
+        if "dyn" not in searched:
+            seq_collect(ctx, seqh)
         ctx.coverage.update({"trusted_base": common.COQ_TRUSTED, "evaluations": 0, "distinct_nontrivial": 0, "rule": "proof stage failed",
                              "samples": [static_fail[:2], (searched.get("dyn") or {}).get("stat")]})
         return
     # (1) what the translator trusts about torch
+    scan_st = scan_stage(ctx, meta)
     optab = op_table_stage(ctx, meta)
     clos = closure_stage(ctx, ctx.quick)
     t_val = time.time() - t0 - t_tr - t_pf
-    # (2) dynamic search: always on; thorough width when a static site fails that no known finding covers
+    # (2) dynamic search: always on; widened when a static site fails that no known finding covers and no concrete input is found
     unknown_static = [s for s in static_fail
                       if common.kf_match(PROP, {"kind": "static", "function": s["function"], "op": s["op"], "effect": "static-" + s["program"]}) is None]
-    cells = grid(ctx, thorough=(not ctx.quick) or bool(unknown_static))
-    dyn = dynamic_stage(ctx, meta, cells, types, localise_limit=400 if unknown_static else 200)
+    dyn, cells = search(ctx, meta, types, seqh, want=unknown_static or None)
     stat_rep = report_static(ctx, meta, dyn)
     t_dyn = time.time() - t0 - t_tr - t_pf - t_val
     trc = trace_stage(ctx, meta, trace_cells(ctx, cells))
@@ -439,24 +579,36 @@ def run(ctx):
             "closure assumption: results of closure parameters and of the operator protocol methods (_matmul, _t_matmul, matmul, solve, ...) are "
             "fresh or alias their ARGUMENT (validated for every operator class and library-built preconditioner; trusted for user closures)",
             "tensor-typed parameters: annotations and harness/c13_types.json (validated by a profile hook on every call of the dynamic grid)",
-            "allow-list harness/c13_allow.json (%d entries in use: cache / memo attribute rebinding and one Python-int augmented assignment; each with a written justification)" % len(meta["allow_ids_used"]),
-            "dynamic search harness (harness/c13_dyn.py, c13_cases.py): layouts, before/after comparison, localiser; "
+            "allow-list harness/c13_allow.json (%d entries in use: cache / memo attribute rebinding and one Python-int augmented assignment; each with a written "
+            "justification and a stated assumption under which Coq re-checks the full program incl. the site: C13_allowlisted_sites_conditional)" % len(meta["allow_ids_used"]),
+            "the translator's reasons for emitting no site at an in-place-looking construct (python container by reaching definitions, int counter, "
+            "value-preserving method, module state, autograd ctx): listed in the evidence; that nothing else is missing is checked by harness/c13_scan.py",
+            "dynamic search harness (harness/c13_dyn.py, c13_cases.py, c13_seq.py): layouts, before/after comparison, operator-state walker "
+            "(instance attributes, memoize caches, closures), localiser; "
             "trace correspondence harness/c13_trace.py (sys.settrace; bounded-depth search for storages inside containers / operators)",
             "storage-identity abstraction: tensors are abstracted to storage identifiers; partial overlap inside one storage is treated as aliasing"],
         "evaluations": sum(dyn["stat"].values()) + optab["observations"] + clos["closure_calls_checked"] + trc["cells_traced"],
         "distinct_nontrivial": dyn["distinct_ok"],
-        "rule": "dynamic cells (entry, variant, layout) whose call completed without raising and in which every caller tensor / pre-existing operator "
+        "rule": "dynamic cells (entry, variant, layout) whose call completed without raising (call-sequence cells: at least one call of the sequence "
+                "completed) and in which every caller tensor / pre-existing operator (sequence cells: also every cached and every returned tensor) "
                 "was compared before/after; distinct by (entry, variant, layout); cells that raised or could not be built are not counted",
         "dynamic": {"cells": sum(dyn["stat"].values()), "status": dyn["stat"], "by_kind": dyn["by_kind"], "by_kind_and_layout": dyn["by_layout"], "hits": len(dyn["hits"]),
                     "hits_unknown": sum(1 for h in dyn["hits"] if not h["known"]), "tensors_that_could_not_take_layout": dyn["degenerate"],
                     "library_functions_executed": len(executed), "translated_functions_with_inplace_sites_executed":
                         len({(m, q) for (m, q) in executed if (m, q) in translated}),
                     "type_assumption_checks": dyn["type_checks"], "type_assumption_violations": dyn["type_violations"],
-                    "raised_samples": dyn["raised_samples"]},
+                    "raised_samples": dyn["raised_samples"],
+                    "call_sequences": dict(dyn.get("sequence") or {}, cells=dyn["by_kind"].get("sequence", 0), worker_seconds=seqh.get("seconds"),
+                                           what="operator-state snapshots over call sequences (harness/c13_seq.py): base K, two derived operators "
+                                                "sharing K, the same query on each and on K again; after every call: every tensor reachable from the "
+                                                "pre-existing operators (_args/_kwargs, _memoize_cache, ad-hoc cache attributes, closures in caches) and "
+                                                "every tensor returned by earlier calls is compared bitwise + _version + metadata, every operator's "
+                                                "representation flags and the dense matrix of a cache-free twin")},
         "static": {"functions_scanned": meta["n_functions"], "programs_with_inplace_sites": meta["n_programs"], "programs_in_anchored_files": anchor_progs,
                    "inplace_sites": n_sites, "sites_allow_listed": n_allowed, "sites_failing": len(static_fail),
                    "failing_sites": stat_rep, "return_summaries": len(meta["returns_fresh"]), "inplace_helpers": meta["helpers"],
-                   "allow_ids_unused": meta["allow_ids_unused"],
+                   "allow_ids_unused": meta["allow_ids_unused"], "independent_scan": scan_st,
+                   "operator_class_method_programs": sum(1 for t in meta["table"] if t["module"].startswith("linear_operator/operators/") and "." in t["qual"]),
                    "classification_usage": {k: v for k, v in meta["used"].items() if k.split(":")[0] in ("binop", "ambiguous_as_unknown", "closure_param_call")}},
         "op_table": optab, "closure_assumption": clos, "ir_trace_correspondence": trc,
         "seconds": {"translate": round(t_tr, 1), "proofs": round(t_pf, 1), "validation": round(t_val, 1), "dynamic": round(t_dyn, 1),
@@ -484,19 +636,25 @@ def replay(rp):
     from . import c13_cases, c13_dyn
     if rp.get("kind") == "ownership-obligation-failed" and rp.get("concrete_input"):
         c = rp["concrete_input"]
-        rp = dict(rp, entry=c["entry"], variant=c["variant"], layout=c["layout"])
+        rp = dict(rp, entry=c["entry"], variant=c["variant"], layout=c["layout"], seed=c.get("seed", rp.get("seed", 0)))
     if "entry" not in rp:
         print(json.dumps(rp, indent=1)[:3000])
         print("no concrete input in this replay file (broken obligation / contradicted table): see fields above")
         return 1
-    allc = c13_cases.utility_cases() + c13_cases.operator_cases() + c13_cases.history_cases() + c13_cases.random_history_cases(400)
-    case = next((c for c in allc if c[0] == rp["entry"] and c[1] == rp["variant"]), None)
+    if rp["entry"].startswith("seq."):
+        from . import c13_seq
+        case = c13_seq.find_case(rp["entry"], rp["variant"])
+    else:
+        allc = c13_cases.utility_cases() + c13_cases.operator_cases() + c13_cases.history_cases() + c13_cases.random_history_cases(400)
+        case = next((c for c in allc if c[0] == rp["entry"] and c[1] == rp["variant"]), None)
     if case is None:
         print("unknown case", rp["entry"], rp["variant"])
         return 2
     seed = int(rp.get("seed", 0))
     r = c13_dyn.run_case(case, rp["layout"], seed)
     print("entry %s variant %s layout %s seed %d -> status %s %s" % (rp["entry"], rp["variant"], rp["layout"], seed, r["status"], r.get("error") or ""))
+    if r.get("seq"):
+        print("  calls made:", r["seq"]["calls"])
     for h in r["hits"]:
         print("  MUTATED:", h)
     if r["hits"]:
